@@ -461,6 +461,13 @@ func slowGenBankOriginParser(length int) pars.Parser {
 				}
 			}
 
+			// Only blanks may follow the residues the declared length leaves
+			// room for on this line.
+			if len(bytes.TrimRight(q[extent:], " ")) != 0 {
+				pos.Byte += extent
+				return pars.NewError("expected end of line", pos)
+			}
+
 			offset += copy(p[offset:], q[:extent])
 			p[offset] = '\n'
 			offset++
@@ -479,7 +486,16 @@ func makeGenbankOriginParser(length int) genbankSubparser {
 			}
 			pars.Line(state, result)
 
+			// From here on the field is an ORIGIN block: a block that does not
+			// hold the declared number of residues is an error of the record
+			// and must not be retried as some other field.
+			if length < 0 || toOriginLength(length) < 0 {
+				state.Clear()
+				return pars.NewError("sequence length out of range", state.Position())
+			}
+
 			if err := state.Request(toOriginLength(length)); err != nil {
+				state.Clear()
 				return pars.NewError("not enough bytes in state", state.Position())
 			}
 
@@ -492,6 +508,7 @@ func makeGenbankOriginParser(length int) genbankSubparser {
 
 			parser := slowGenBankOriginParser(length)
 			if err := parser(state, result); err != nil {
+				state.Clear()
 				return err
 			}
 			p = result.Token
